@@ -368,28 +368,11 @@ Fixpoint held_later (c : (nat -> bool) -> bool) (a : nat -> bool) (es : list sev
     match e with EProcess _ _ _ _ _ => c a' | _ => false end || held_later c a' r
   end.
 
-(* ProcessWhen's walk over activated ++ deactivated: after the first n
-   states the binding's flags are the new activity for the walked states and
-   the old one for the others *)
+(* ProcessWhen's pass 1 over activated ++ deactivated: after the walked
+   states the binding's flags are the new activity for them and the old one
+   for the others (used by the proofs) *)
 Definition hybrid (a : nat -> bool) (act : list nat) (walked : list nat) (x : nat) : bool :=
   if mem x walked then mem x act else a x.
-
-(* some prefix of the walk ending in one of the binding's states marks all of
-   them (in)active at once *)
-Definition walk_full (neg : bool) (sts : list nat) (a : nat -> bool) (act deact : list nat) : bool :=
-  let all := act ++ deact in
-  existsb (fun n =>
-    mem (nth (n - 1) all 0) sts
-    && forallb (fun x => Bool.eqb (hybrid a act (firstn n all) x) (negb neg)) sts)
-    (seq 1 (length all)).
-
-Fixpoint walked_later (neg : bool) (sts : list nat) (a : nat -> bool) (es : list sevent) : bool :=
-  match es with
-  | [] => false
-  | e :: r =>
-    match e with EProcess act deact _ _ _ => walk_full neg sts a act deact | _ => false end
-    || walked_later neg sts (act_upd a e) r
-  end.
 
 (* all the states of a When (neg = false) / WhenNot (neg = true) are active /
    inactive under the told activity *)
